@@ -72,6 +72,7 @@ pub fn run(cx: &mut Ctx) {
     cx.check("measure_translation_projects", |cb| {
         let n = 3usize;
         let alphabet: Vec<(&str, Vec<usize>)> = vec![("h", vec![0]), ("h", vec![1]), ("x", vec![1]), ("x", vec![2]), ("cx", vec![0, 1]), ("cx", vec![1, 2]), ("cz", vec![0, 2]), ("t", vec![1]), ("t", vec![2]),
+                                                      ("swap", vec![0, 1]), ("swap", vec![1, 2]),
                                                       ("measure_d", vec![0]), ("measure_d", vec![1]), ("measure_d", vec![2])];
         let mut seqs: Vec<Vec<usize>> = vec![vec![]];
         for _ in 0..3 { let mut nxt = vec![]; for s in &seqs { for a in 0..alphabet.len() { let mut t = s.clone(); t.push(a); nxt.push(t); } } seqs.extend(nxt); seqs.sort(); seqs.dedup(); }
